@@ -16,7 +16,6 @@ SEG = "mos_core::codegen::segment::Segment"
 PERSISTENT = {
     "symbols": "the fixed-point carrier: symbol values of pass n feed pass n+1",
     "undefined": "taken by the pass loop with mem::take before next_pass (checked separately)",
-    "analysis": "definition/usage database, set-valued and idempotent across passes",
     "banks": "keyed overwrite by every `.define bank` in every pass",
     "current_scope": "balanced push/pop in with_scope (checked by C07 R7.4)",
     "current_scope_nx": "saved/restored in with_scope (checked by C07 R7.4)",
